@@ -88,8 +88,16 @@ def gen_history(ch, reuse=False):
         keys.append(pool.pop(ch.draw(len(pool), "key")))
     nsets = (2 + ch.draw(4, "nsets")) if reuse else (1 + ch.draw(4, "nsets"))
     hist = []
+    # some histories write "block values": same length, built from a few 4 KiB blocks, so that successive values of a key
+    # share leading blocks, differ only in leading blocks, or differ only in the last byte (logs, records with a version
+    # field): whatever a writer does to avoid rewriting equal parts, the file ends up holding the value that was set
+    blocks = ch.draw(3 if reuse else 8, "blockvals") == 0
     for i in range(nsets):
         k = keys[ch.draw(len(keys), "which")]
+        if blocks:
+            lit = '"' + "".join(ch.pick("AB", "blk") * 4096 for _ in range(3)) + ch.pick("123", "blk.tail") + '"'
+            hist.append((k, lit))
+            continue
         earlier = [l for kk, l in hist if kk == k]
         if reuse and len(earlier) >= 1 and ch.draw(2, "reuse"):
             # the application writes a value this key already had (A, B, A): "nothing changed" shortcuts must not skip it
